@@ -19,6 +19,16 @@ CHECKS.update({
    ref="4 C08", note="schedules of the real code are sampled; taskset controls NumCPU; race detector trusted for race freedom on the executions run",
    tech="TLA+ spec (WorkflowFast) model-checked by TLC incl. liveness; trace validation of free-running real executions (TraceWorkflow); sequential/parallel differential; go -race"),
 })
+CHECKS.update({
+ "C09": dict(cat="fault_enumeration",
+   text="Fault positions are exhaustive on Workflow.tla / WorkflowFast.tla at chunk granularity (every FailAt x with/without data x short reads x W<=3, safety + Terminates/WorkersExit). Against the real code the failure is injected through the caller's reader at dense byte offsets (first/last byte, every sample boundary +-1, random) x 5 failure kinds x all seven functions x NumCPU in {1,2,16}; TLC validates each execution (verdict false, error, no hang, no leaked goroutine).",
+   ref="4 C09", note="hang = a full watchdog period without any Read/runner call, reproduced on a second execution; offsets are dense, not all 6.25M bytes",
+   tech="TLA+ fault models (Workflow/WorkflowFast) model-checked by TLC incl. liveness; fault injection through the io.Reader replayed into the real workflows; traces validated by TLC (TraceWorkflow)"),
+ "C10": dict(cat="model_checking",
+   text="Every read-size history is explored on the models (each Read returns 1..requested chunks; 2-4 chunks per sample; W<=3), with the as-is single-Read and unlocked-ReadFull protocols as negative controls. Against the real code nine chunk policies (1-byte, primes, random, all-but-one, halves, bufio-like straddling) x seven functions x NumCPU in {1,2,3,16}; stub runners verify each judged buffer byte for byte against a self-describing stream; TLC validates each trace; chunked vs full-read differential.",
+   ref="4 C10", note="policies sample the read-size histories at byte level; exhaustive only at chunk granularity on the model",
+   tech="TLA+ read-history models (Workflow/WorkflowFast) model-checked by TLC; chunk policies replayed through the io.Reader into the real workflows; traces validated by TLC (TraceWorkflow)"),
+})
 PENDING = {}
 
 def main():
